@@ -361,7 +361,14 @@ func (h *hist) churn(w *world, r *tr.Rand, workers, steps int, autolock bool) {
 				defer wg.Done()
 				rr := tr.NewRand(seeds[k])
 				for i := 0; i < steps; i++ {
-					switch rr.Pick(4, 2, 2, 2, 1, 1, 1, 3, 3, 1, 1) {
+					switch rr.Pick(4, 2, 2, 2, 1, 1, 1, 3, 3, 1, 1, 3) {
+					case 11: // short-lived EMPTY groups appear and are dropped (expiry, deletion) while statistics are read
+						tmp := fmt.Sprintf("%s-tmp%d", name, k)
+						w.write(tmp, false, false, "tmp")
+						group.Add(tmp, nil)
+						_ = stats.GetGroups()
+						group.Delete(tmp)
+						_ = stats.GetGroups()
 					case 0: // a web client joins and leaves
 						c := &fake{id: fmt.Sprintf("w%d-%d", k, i)}
 						if gg, err := group.AddClient(name, c, creds("op")); err == nil {
